@@ -17,10 +17,28 @@ macro_rules! put_as {
 }
 macro_rules! parse_as {
     ($it:ty, $ut:ty, $buf:expr, $off:expr, $len:expr) => {{
-        let mut par = Parser::new($buf, $off);
+        // a cursor position is reached either directly or by skipping bits from an earlier one
+        let skip = SKIP.with(|s| s.get());
+        let mut par = Parser::new($buf, $off - skip.min($off));
+        if skip > 0 {
+            par.consume_bits(skip.min($off));
+        }
         let r = par.parse::<$it>($len).map(|v| v as $ut as u64);
         (r, par.offset())
     }};
+}
+
+thread_local! {
+    /// number of bits the next `parse` reaches its offset by `consume_bits` (0 = Parser::new at the offset)
+    pub static SKIP: std::cell::Cell<usize> = std::cell::Cell::new(0);
+}
+
+/// SKIPPARSE: Parser::new(buf, off); consume_bits(skip); parse(len) -- answers as PARSE at off + skip
+pub fn with_skip<T>(skip: usize, f: impl FnOnce() -> T) -> T {
+    SKIP.with(|s| s.set(skip));
+    let r = f();
+    SKIP.with(|s| s.set(0));
+    r
 }
 
 /// value is the carrier's bit pattern as an unsigned number
